@@ -6,6 +6,7 @@ import (
 	"go/token"
 	"go/types"
 	"regexp"
+	"sort"
 	"strings"
 
 	"golang.org/x/tools/go/ssa"
@@ -220,9 +221,28 @@ func runC08(c *core.Ctx) core.Meta {
 			}
 		}
 		st3.Instances++
-		okID := core.ProvMatch(regexp.MustCompile(`^\(\(\(.*\.IDZ\*.*\.SizeX\)\*.*\.SizeY\)\+\(.*\.IDY\*.*\.SizeX\)\)\+.*\.IDX\)$`), idExpr) ||
-			// the slice pitch SizeX*SizeY formed first
-			core.ProvMatch(regexp.MustCompile(`^\(\(\(.*\.IDZ\*\(.*\.SizeX\*.*\.SizeY\)\)\+\(.*\.IDY\*.*\.SizeX\)\)\+.*\.IDX\)$`), idExpr)
+		// z*SizeX*SizeY + y*SizeX + x in any order of terms and factors (the WorkItem.FlattenedID
+		// helper writes the terms the other way round)
+		okID := func() bool {
+			terms := sumOfProducts(idExpr)
+			if len(terms) != 3 {
+				return false
+			}
+			var keys []string
+			for _, t := range terms {
+				var fs []string
+				for _, f := range t {
+					if i := strings.LastIndex(f, "."); i >= 0 {
+						f = f[i+1:]
+					}
+					fs = append(fs, f)
+				}
+				sort.Strings(fs)
+				keys = append(keys, strings.Join(fs, "*"))
+			}
+			sort.Strings(keys)
+			return strings.Join(keys, " + ") == "IDX + IDY*SizeX + IDZ*SizeX*SizeY"
+		}()
 		st3.Ob(okID)
 		st3.Sample("formWavefronts: in-group id = %s", short(idExpr))
 		if !okID {
@@ -527,4 +547,83 @@ func checkBuilderReinitialised(c *core.Ctx, rule string) {
 			c.ReportAt(rule, set, at, "not-reinitialised:"+f.Name(), "on a path through SetKernel the builder's "+f.Name()+" "+bad+": a builder that is reused for the next kernel (every dispatcher keeps one) continues from the previous kernel's value - a filtered launch announces the previous NumWG plus its own work-groups, the dispatcher waits for completions that never come")
 		}
 	}
+}
+
+// sumOfProducts parses a provenance expression built from +, * and parentheses into its terms and
+// their factors; everything else is an atom.
+func sumOfProducts(expr string) [][]string {
+	expr = strings.TrimSpace(expr)
+	// split at top-level operators
+	split := func(s string, op byte) []string {
+		var out []string
+		depth, start := 0, 0
+		for i := 0; i < len(s); i++ {
+			switch s[i] {
+			case '(', '[', '{':
+				depth++
+			case ')', ']', '}':
+				depth--
+			default:
+				if s[i] == op && depth == 0 {
+					out = append(out, s[start:i])
+					start = i + 1
+				}
+			}
+		}
+		return append(out, s[start:])
+	}
+	strip := func(s string) string {
+		for {
+			s = strings.TrimSpace(s)
+			if len(s) < 2 || s[0] != '(' || s[len(s)-1] != ')' {
+				return s
+			}
+			// the parentheses enclose the whole string?
+			depth := 0
+			whole := true
+			for i := 0; i < len(s)-1; i++ {
+				switch s[i] {
+				case '(':
+					depth++
+				case ')':
+					depth--
+				}
+				if depth == 0 {
+					whole = false
+					break
+				}
+			}
+			if !whole {
+				return s
+			}
+			s = s[1 : len(s)-1]
+		}
+	}
+	var terms func(s string) [][]string
+	var factors func(s string) []string
+	factors = func(s string) []string {
+		s = strip(s)
+		parts := split(s, '*')
+		if len(parts) == 1 {
+			return []string{s}
+		}
+		var out []string
+		for _, p := range parts {
+			out = append(out, factors(p)...)
+		}
+		return out
+	}
+	terms = func(s string) [][]string {
+		s = strip(s)
+		parts := split(s, '+')
+		if len(parts) == 1 {
+			return [][]string{factors(s)}
+		}
+		var out [][]string
+		for _, p := range parts {
+			out = append(out, terms(p)...)
+		}
+		return out
+	}
+	return terms(expr)
 }
